@@ -111,6 +111,24 @@ CHECKS = {
             "helpers and field-type constructors are trusted with hostile arguments", "DESIGN.md 3/C09"),
 }
 
+# clauses added after the fifth blind round (appended to "what is decided")
+EXTRA = {
+    "C01": "every element typedlist._pack writes is the packed form of a value of the element type",
+    "C02": "every element typedlist._pack writes is the packed form of a value of the element type",
+    "C04": "no buffering layer is put around an object that can be a raising decompressor, anywhere in the package; the decoder receives fp.read(<decoded size>) wherever that is written",
+    "C05": "every initialiser of a typed list's storage is a converted one; state written by a validating setter has no other writer; generated code never truth-tests a generic field value",
+    "C06": "every return of fieldtype() is under the whitelist test and the lookup does not recurse; the whitelist tree walk is decided by facts and reachability; the JSON descriptor branch returns only validated constructions",
+    "C07": "the typed matcher hands its whole query to the matcher of a nested record; the interpreted namespace is rebuilt before every evaluation",
+    "C09": "the call predicate is followed into matcher methods and locals; a getattr name of untraceable provenance needs the dunder refusal",
+    "C12": "every element typedlist._pack writes is the packed form of a value of the element type (equal lists pack equally)",
+    "C14": "the descriptor handler is registered exactly when descriptors are enabled (facts + reachability); generated constructor code never truth-tests a generic field value",
+    "C15": "RecordDescriptor equality implies equal name and field tuples (the caches are keyed by it)",
+    "C16": "the split suffix never truncates the part number; the interpreted engine's namespace is rebuilt per record",
+    "C17": "the archiver's template is instantiated with the record's own _generated value and the record itself",
+    "C18": "memoised functions of the SQL adapters do not read the database",
+    "C20": "the rendered text is written as rendered; the CSV dialect is sniffed from a block read of the file",
+}
+
 NOT_YET = {}
 
 
@@ -129,7 +147,7 @@ def main():
                 "evidence_file": f"/verif/evidence/{pid}.json",
                 "replay_cmd_template": f"./check {pid} --explain {{path}}",
                 "engine": "sa",
-                "level_claimed": {"category": "other", "text": LEVEL_TEXT + "Decided here: " + decided + ".", "design_ref": ref},
+                "level_claimed": {"category": "other", "text": LEVEL_TEXT + "Decided here: " + decided + (("; " + EXTRA[pid]) if pid in EXTRA else "") + ".", "design_ref": ref},
                 "level_note": "Trusted base: CPython's ast parser and the documented data model; " + trusted +
                               ". A vanished anchor or an unmodelled idiom ends in ANALYSIS-ERROR (exit 2), never in a pass.",
                 "technique": "static analysis: " + tech,
